@@ -5,6 +5,7 @@ What is extracted (the hand model `Context/Model.lean` is *defined in terms of* 
   bindOperands   operand order of the dict display in Logger.bind
   ctxOperands    operand order of the dict display in Logger.contextualize
   patchOperands  operand order of the list display in Logger.patch
+  patchDedup     whether Logger.patch skips a patcher that is already (==) in the list
   logPhases      relative order of `core.patcher(...)`, `for patcher in patchers`, `for handler in ...emit`
   resetOn        the ways of leaving a contextualize block (normal / Exception / BaseException) that run
                  `context.reset(token)`
@@ -192,17 +193,35 @@ def generate():
         # ---------------------------------------------------------------- patch
         patch = find_func(cls, "patch")
         me = patch.args.args[0].arg
-        asg, call = _single_return_logger(_strip_doc(patch.body), "patch", me)
+        pbody = _strip_doc(patch.body)
+        dedup = False
+        if len(pbody) == 3 and isinstance(pbody[1], ast.If):
+            # `if patcher not in patchers: patchers = <display>` – a patcher equal to one already attached is
+            # dropped (the local name is rebound, nothing is mutated); mirrored by the model as patchDedup
+            g = pbody[1]
+            if _u(g.test) != "patcher not in patchers" or g.orelse or len(g.body) != 1 \
+                    or not isinstance(g.body[0], ast.Assign) or _u(g.body[0].targets[0]) != "patchers":
+                raise Unsupported("patch: unexpected guard " + _u(g)[:80])
+            asg, call = _single_return_logger([pbody[0], pbody[2]], "patch", me)
+            if _u(call.args[2]) != "patchers":
+                raise Unsupported("patch: Logger arguments " + _u(call))
+            newlist = g.body[0].value
+            dedup = True
+        else:
+            asg, call = _single_return_logger(pbody, "patch", me)
+            newlist = call.args[2] if len(call.args) == 4 else None
         if _u(asg) != "*options, patchers, extra = %s._options" % me:
             raise Unsupported("patch unpacking: " + _u(asg))
         if len(call.args) != 4 or _u(call.args[1]) != "*options" or _u(call.args[3]) != "extra":
             raise Unsupported("patch: Logger arguments " + _u(call))
-        pops = _list_operands(call.args[2], "patch's new patcher list")
+        pops = _list_operands(newlist, "patch's new patcher list")
         if sorted(pops) != [("item", "patcher"), ("star", "patchers")]:
             raise Unsupported("patch operands " + repr(pops))
         _no_mutation(patch, {"patchers", "extra", "options"}, "patch")
         body += "/-- `patch`: %s -/\ndef patchOperands : List PSrc := %s\n\n" % (
-            _u(call.args[2]), _lean_list(["PSrc.old" if k == "star" else "PSrc.new" for k, _ in pops]))
+            _u(newlist), _lean_list(["PSrc.old" if k == "star" else "PSrc.new" for k, _ in pops]))
+        body += ("/-- `patch`: is the new patcher skipped when an equal one is already attached "
+                 "(`if patcher not in patchers`)? -/\ndef patchDedup : Bool := %s\n\n" % ("true" if dedup else "false"))
 
         # ---------------------------------------------------------------- opt
         opt = find_func(cls, "opt")
